@@ -461,8 +461,10 @@ class Interp:
             return self._from_ev(self.ev(s.exc, st), do_raise)
         if isinstance(s, ast.If):
             outs = []
-            for truth, s2 in self.ev_cond(s.test, st):
+            raises = []
+            for truth, s2 in self._ev_cond(s.test, st, raises):
                 outs.extend(self.exec_block(s.body if truth else s.orelse, s2))
+            outs.extend(Outcome(RAISE, v, s2) for v, s2 in raises)
             return outs
         if isinstance(s, (ast.For, ast.AsyncFor)):
             return self.exec_for(s, st)
@@ -620,7 +622,10 @@ class Interp:
         for i in range(self.hooks.loop_bound + 1):
             nxt = []
             for s0 in cur:
-                for truth, s1 in self.ev_cond(s.test, s0):
+                raises = []
+                conds = self._ev_cond(s.test, s0, raises)
+                final.extend(Outcome(RAISE, v, s1) for v, s1 in raises)
+                for truth, s1 in conds:
                     if not truth:
                         final.extend(self.exec_block(s.orelse, s1) if s.orelse else [Outcome(NORMAL, None, s1)])
                         continue
@@ -826,8 +831,10 @@ class Interp:
             return out
         if isinstance(node, ast.IfExp):
             out = []
-            for truth, s in self.ev_cond(node.test, st):
+            raises = []
+            for truth, s in self._ev_cond(node.test, st, raises):
                 out.extend(self.ev(node.body if truth else node.orelse, s))
+            out.extend(('raise', v, s) for v, s in raises)
             return out
         if isinstance(node, ast.BoolOp):
             # value of `a or b` / `a and b` is one of the operands
@@ -1426,15 +1433,19 @@ class Interp:
     # ------------------------------------------------------------ conditions (E7)
     def ev_cond(self, test, st: State) -> List[Tuple[bool, State]]:
         """-> [(truth, state)]; decides when the facts allow, forks otherwise"""
+        return self._ev_cond(test, st, None)
+
+    def _ev_cond(self, test, st: State, raises: Optional[list]) -> List[Tuple[bool, State]]:
+        """raises: collects (exception, state) of evaluations that raise; None = not supported by the caller"""
         if isinstance(test, ast.UnaryOp) and isinstance(test.op, ast.Not):
-            return [(not t, s) for t, s in self.ev_cond(test.operand, st)]
+            return [(not t, s) for t, s in self._ev_cond(test.operand, st, raises)]
         if isinstance(test, ast.BoolOp):
             is_and = isinstance(test.op, ast.And)
             results = []
             pending = [(st, 0)]
             while pending:
                 s, i = pending.pop()
-                for t, s2 in self.ev_cond(test.values[i], s):
+                for t, s2 in self._ev_cond(test.values[i], s, raises):
                     if (is_and and not t) or (not is_and and t):
                         results.append((t, s2))
                     elif i + 1 == len(test.values):
@@ -1447,7 +1458,10 @@ class Interp:
             out = []
             for kind, vals, s in self.ev_many([test.left, test.comparators[0]], st):
                 if kind == 'raise':
-                    raise AnalysisError('exception inside a condition: ' + unparse(test))
+                    if raises is None:
+                        raise AnalysisError('exception inside a condition: ' + unparse(test))
+                    raises.append((vals, s))
+                    continue
                 l, r = vals
                 out.extend(self.compare(op, l, r, s, test))
             return out
@@ -1456,14 +1470,20 @@ class Interp:
             out = []
             for kind, v, s in self.ev(test.args[0], st):
                 if kind == 'raise':
-                    raise AnalysisError('exception inside a condition: ' + unparse(test))
+                    if raises is None:
+                        raise AnalysisError('exception inside a condition: ' + unparse(test))
+                    raises.append((v, s))
+                    continue
                 out.extend(self.isinstance_test(v, test.args[1], s, test))
             return out
         # truthiness of a value
         out = []
         for kind, v, s in self.ev(test, st):
             if kind == 'raise':
-                raise AnalysisError('exception inside a condition: ' + unparse(test))
+                if raises is None:
+                    raise AnalysisError('exception inside a condition: ' + unparse(test))
+                raises.append((v, s))
+                continue
             out.extend(self.truthiness(v, s, test))
         return out
 
